@@ -372,7 +372,7 @@ Definition undelegate_pre : script facts :=
   [ is1 "txhash"; pos "amt"; is1 "op";
     pos "amt"; is1 "dl.ex"; is1 "oa.ex";
     Check shares_ok;
-    Check (fun s => shares_from (fget "amt" s) s <=? fget "dl.share" s);
+    Check und_within;
     Check (fun s => tshare s <=? fget "dl.share" s);
     Check (fun s => 0 <? tshare s);
     Check (fun s => tshare s <=? fget "oa.share" s);
@@ -597,6 +597,37 @@ Proof.
        end; try lia.
 Qed.
 
+(* [accepted MsgUpdateParams, rejected MsgUpdateParams]: the params pushed into the in-memory cache by the first message
+   survive the failed tx; a tx failing at its first message leaves nothing - in particular the aggregator's own params
+   (class oracle-mem/agc-params) are never written by this entry point *)
+Definition oracle_params_bad_state : facts := [("ante.ok", 1); ("n", 2); ("fail.idx", 1)]%string.
+Lemma oracle_params_cache_not_rolled_back :
+  failed (res_of (exec MTxMem oracle_params_tx oracle_params_bad_state)) = true /\
+  tr_of (exec MTxMem oracle_params_tx oracle_params_bad_state) = ["oracle-mem/cache"%string].
+Proof. split; reflexivity. Qed.
+
+Lemma oracle_params_first_message s : fget "fail.idx" s <= 0 ->
+  failed (res_of (exec MTxMem oracle_params_tx s)) = true -> tr_of (exec MTxMem oracle_params_tx s) = [].
+Proof.
+  intros H. cbv [exec via_tx_mem oracle_params_tx oracle_params_msg app is1 run].
+  repeat (cbn [run_from res_of tr_of failed fst snd app filter]; try brk; try reflexivity; try discriminate).
+  all: repeat match goal with
+       | H : negb _ = true |- _ => apply negb_true_iff in H
+       | H : negb _ = false |- _ => apply negb_false_iff in H
+       | H : (_ =? _) = true |- _ => apply Z.eqb_eq in H
+       | H : (_ =? _) = false |- _ => apply Z.eqb_neq in H
+       | H : (_ <? _) = true |- _ => apply Z.ltb_lt in H
+       | H : (_ <? _) = false |- _ => apply Z.ltb_ge in H
+       end; try lia.
+Qed.
+
+Lemma oracle_params_never_touches_agc_params s :
+  ~ In "oracle-mem/agc-params"%string (tr_of (run oracle_params_tx s)).
+Proof.
+  cbv [oracle_params_tx oracle_params_msg app is1 run].
+  repeat (cbn [run_from res_of tr_of failed fst snd app]; try brk); cbn; intuition discriminate.
+Qed.
+
 (* ------------------------------------------------------------------------------------------ *)
 (* all entry points                                                                            *)
 (* ------------------------------------------------------------------------------------------ *)
@@ -605,6 +636,7 @@ Definition inv_of (k : op_kind) : facts -> bool :=
   | Delegate => inv_delegate
   | Undelegate => inv_undelegate
   | OracleTx => fun s => (fget "fail.idx" s <=? 0) && (fget "fail.ignored" s =? 0)
+  | OracleParamsTx => fun s => fget "fail.idx" s <=? 0
   | _ => fun _ => true
   end.
 
@@ -626,6 +658,8 @@ Proof.
   - exact (avs_create_task_atomic s).
   - (* every write of oracle_tx is the identity on the facts: the facts never change; what matters is the trace *)
     unfold atomic_at. intros _. cbv [exec via_tx_mem oracle_tx oracle_msg app is1 run].
+    repeat (cbn [run_from res_of tr_of st_of failed fst snd app filter]; try brk; try reflexivity).
+  - unfold atomic_at. intros _. cbv [exec via_tx_mem oracle_params_tx oracle_params_msg app is1 run].
     repeat (cbn [run_from res_of tr_of st_of failed fst snd app filter]; try brk; try reflexivity).
 Qed.
 
